@@ -84,6 +84,7 @@ type world struct {
 	backend    string
 	interval   int64
 	bypass     bool
+	tie        bool // durable stake tie between validator entities 1 and 2 at the election cut-off
 	fixedTimeS int64
 }
 
@@ -93,8 +94,8 @@ func (nopNotifier) DeliverExecutorCommitment(common.Namespace, *commitment.Execu
 
 func testSigner(name string) signature.Signer { return memorySigner.NewTestSigner(name) }
 
-func newWorld(backend string, interval int64) (*world, error) {
-	w := &world{addrIndex: map[string]int{}, backend: backend, interval: interval, fixedTimeS: 1700000000}
+func newWorld(backend string, interval int64, tie bool) (*world, error) {
+	w := &world{addrIndex: map[string]int{}, backend: backend, interval: interval, fixedTimeS: 1700000000, tie: tie}
 	w.genesisT = time.Unix(w.fixedTimeS, 0).UTC()
 	for i := 1; i <= numValidators; i++ {
 		v := &validator{idx: i}
@@ -136,6 +137,14 @@ func newWorld(backend string, interval int64) (*world, error) {
 }
 
 func q(n uint64) quantity.Quantity { return *quantity.NewFromUint64(n) }
+
+// tieZero: rewards that would break the engineered stake tie are switched off in tie mode.
+func (w *world) tieZero(n uint64) uint64 {
+	if w.tie {
+		return 0
+	}
+	return n
+}
 
 func (w *world) makeGenesis() (*genesis.Document, error) {
 	ledger := map[staking.Address]*staking.Account{}
@@ -204,10 +213,10 @@ func (w *world) makeGenesis() (*genesis.Document, error) {
 		Scheduler: scheduler.Genesis{
 			Parameters: scheduler.ConsensusParameters{
 				MinValidators:                1,
-				MaxValidators:                100,
+				MaxValidators:                3,
 				MaxValidatorsPerEntity:       100,
 				DebugBypassStake:             w.bypass,
-				RewardFactorEpochElectionAny: q(1),
+				RewardFactorEpochElectionAny: q(w.tieZero(1)),
 			},
 		},
 		Governance: governance.Genesis{
@@ -261,7 +270,7 @@ func (w *world) makeGenesis() (*genesis.Document, error) {
 				FeeSplitWeightNextPropose:         q(1),
 				FeeSplitWeightPropose:             q(1),
 				RewardFactorEpochSigned:           q(1),
-				RewardFactorBlockProposed:         q(1),
+				RewardFactorBlockProposed:         q(w.tieZero(1)),
 				SigningRewardThresholdNumerator:   1,
 				SigningRewardThresholdDenominator: 2,
 				RewardSchedule:                    []staking.RewardStep{{Until: 1000, Scale: q(1000)}},
